@@ -48,6 +48,13 @@ func validCase(c *hc.Ctx, grids []*Grid, maxW int64) (*Grid, [][]Pt, string) {
 		w := randWindow(c.Rng, g, maxW)
 		poly, kind := genValidPolygon(c.Rng, w)
 		if g.Dyadic && c.Rng.Intn(8) == 0 {
+			if pp, ok := genRectilinear(c.Rng, w); ok {
+				poly, kind = pp, "rectilinear"
+				if len(pp) > 1 {
+					kind = "rectilinear+hole"
+				}
+			}
+		} else if g.Dyadic && c.Rng.Intn(8) == 0 {
 			if pp, ok := genPinched(c.Rng, w); ok {
 				poly, kind = pp, "pinched"
 				if len(pp) > 1 {
@@ -413,6 +420,11 @@ func runC18(c *hc.Ctx) error {
 		ids := []int{id}
 		if id != g.DeepestID {
 			ids = append(ids, g.DeepestID)
+		}
+		if i%10 == 9 { // a few pixels on a real grid at a deep tile matrix far from the origin
+			if dg, dp, did, ok := deepRealCase(c.Rng); ok {
+				g, poly, kind, id, ids = dg, dp, "deep real grid", did, []int{did}
+			}
 		}
 		cfg := randCfg(c.Rng)
 		cfg.IgnoreOutsideGrid = false
